@@ -145,8 +145,18 @@ func runGated(r *ev.Run, dir string, cfg cfgT, seed uint64, policy string) (stri
 		// the copy has to outlive a second round of merges: longer histories
 		W, B = 3, g.Range(6, 9)
 	}
+	// "sweep-late:<k>" / "sweep-prompt:<k>": exactly one copy, started at the k-th strictly quiescent point of the
+	// run; late = the copy is released only when nothing else waits (it spans everything that follows)
+	sweepK := -1
+	tag := ""
+	if strings.HasPrefix(policy, "sweep-") {
+		i := strings.IndexByte(policy, ':')
+		sweepK, _ = strconv.Atoi(policy[i+1:])
+		tag = "-" + policy[:i] + "-" + policy[i+1:]
+		policy = map[string]string{"sweep-late": "starve-copier", "sweep-prompt": ""}[policy[:i]]
+	}
 	writers, ids, keys := genWriters(g.Derive("writers"), W, B, nIDs)
-	base := filepath.Join(dir, fmt.Sprintf("g-%s-%x", cfg.Name, seed))
+	base := filepath.Join(dir, fmt.Sprintf("g-%s-%x%s", cfg.Name, seed, tag))
 	st := &gstats{}
 	var mu sync.Mutex
 	var problem string
@@ -267,6 +277,12 @@ func runGated(r *ev.Run, dir string, cfg cfgT, seed uint64, policy string) (stri
 				startCopy(rn)
 			}
 		default:
+			if sweepK >= 0 {
+				if st.strict-1 == sweepK && nJobs == 0 {
+					startCopy(rn)
+				}
+				return
+			}
 			if busy.Load() < nCopiers && nJobs < 6 && cg.Chance(1, 3) {
 				startCopy(rn)
 			}
@@ -520,6 +536,47 @@ func run(r *ev.Run) {
 		}(i)
 	}
 	wg.Wait()
+	// sweep: for a few scenarios, one run per strictly quiescent point k of the scenario, the copy started exactly there
+	nSweep := r.Scale(4, 24)
+	sweepRuns, sweepPoints := 0, 0
+	for i := 0; i < nSweep; i++ {
+		g := r.Rng(fmt.Sprintf("sweep-%d", i))
+		cfg := cs[i%len(cs)]
+		seed := g.Uint64()
+		kind := []string{"sweep-late", "sweep-prompt"}[(i/len(cs))%2]
+		one := func(k int) (strictPoints int) {
+			problem, wit, st, timedOut := runGated(r, dir, cfg, seed, fmt.Sprintf("%s:%d", kind, k))
+			r.Case(fmt.Sprintf("sweep/%s/%x/%s/%d", cfg.Name, seed, kind, k), st.copiesSpanningIntro > 0 || st.copiesWithUnpersisted > 0)
+			mu.Lock()
+			sweepRuns++
+			tot.copies += st.copies
+			tot.copiesSpanningIntro += st.copiesSpanningIntro
+			tot.copiesWithUnpersisted += st.copiesWithUnpersisted
+			mu.Unlock()
+			if timedOut {
+				r.Inconclusive("sweep scenario watchdog")
+			} else if problem != "" {
+				r.Violation("gated/"+problem, fmt.Sprintf("[%s k=%d] %s", kind, k, wit.Detail), wit)
+			}
+			return st.strict
+		}
+		n := one(0)
+		if n > 80 {
+			n = 80
+		}
+		sweepPoints += n
+		for k := 1; k < n; k++ {
+			wg.Add(1)
+			sem <- struct{}{}
+			go func(k int) {
+				defer wg.Done()
+				defer func() { <-sem }()
+				one(k)
+			}(k)
+		}
+		wg.Wait()
+	}
+	r.Extra("sweep", map[string]any{"scenarios": nSweep, "runs_one_copy_each": sweepRuns, "quiescent_points_swept": sweepPoints})
 	r.Extra("gated", map[string]any{"scenarios": nG, "copies_verified": tot.copies, "copies_spanning_an_introduction": tot.copiesSpanningIntro,
 		"copies_started_with_unpersisted_segments": tot.copiesWithUnpersisted, "strict_quiescent_points": tot.strict, "distinct_introducer_orders": len(orders)})
 	sc, so := 0, 0
